@@ -4,6 +4,7 @@ cd /verif
 for d in seeded/*/; do
   s=$(basename $d); p=${s%%-*}
   [ -f $d/patch.diff ] || continue
+  grep -q superseded $d/meta.json && { echo "$s superseded"; continue; }
   out=$(tools/seedrun.sh /verif/$d $p 2>&1)
   n=$(echo "$out" | grep -o "violations: [0-9]*" | cut -d' ' -f2)
   rule=$(echo "$out" | grep -o "rule=[^ ]*" | sort -u | tr '\n' ' ')
